@@ -2,7 +2,7 @@ HOOKS = {
     "guard": "verif",
     "enable": "go1.26.8 test -tags verif (harness module /verif/harness, replace github.com/atlassian/gostatsd => /repo)",
     "baseline_off_cmd": "cd /repo && go test -mod=mod -vet=off -count=1 -timeout 25m ./...",
-    "source_commits": ["0b9c779"],
+    "source_commits": ["0b9c779", "179e9e2"],
     "add_only": True,
 }
 ENGINES = [
@@ -103,6 +103,17 @@ CHECKS["C01"] = {
     "note": "interleavings of the real code are steered through gates at the Aggregator and Backend seams plus quiescence waits; "
             "goroutine interleavings inside a window are whatever the Go scheduler does; shutdown excluded as in the statement",
     "technique": "TLC design check of the pipeline model + TLC trace validation of real executions driven by TLC-generated schedules",
+}
+CHECKS["C11"] = {
+    "text": "CloudHandler.tla models every select arm of CloudHandler.Run, the parking queues, the lookup hand-off and the gauges (as "
+            "integers, so the uint64 underflow shows) and is composed with the EnrichProp monitor written from the statement; TLC checks "
+            "all interleavings of 2 sources x <= 5 arrivals and refutes the pre-fix gauge accounting. TLC-enumerated stimulus schedules "
+            "(arrivals, service takes / answers pos | pos-without-tags | neg, emit, next handler held / released, cache eviction) drive "
+            "the real CloudHandler under synctest; the recorded trace is validated by TLC against the monitor.",
+    "design_ref": "6/C11",
+    "note": "the instance cache is owned by the driver, so the hit class of every arrival is known exactly; 'immediately' is checked "
+            "at quiescence points (settle) of the bubble",
+    "technique": "TLC design check of the cloud-stage model + TLC trace validation of real executions driven by TLC-enumerated schedules",
 }
 NOT_APPLICABLE = [{"property_id": p, "reason": "check not built yet (build in progress; see DESIGN.md Appendix B for the order)"}
                   for p in ALL if p not in CHECKS]
